@@ -490,6 +490,9 @@ func (w *bscWorld) apply(op kernel.Op) {
 		if w.host.InBlock {
 			return
 		}
+		if (int64(w.host.Height)+op.Arg(0))%3 == 1 {
+			genfault.Restart(w.rec, w.host, "bsc")
+		}
 		genfault.Run(w.rec, w.host, int64(w.host.Height)+op.Arg(0))
 		for _, is := range w.host.ModuleRoundTrip() {
 			w.rec.Violate("C13", "roundtrip", "bsc:"+is.Key, "bsc world: %s", is.Detail)
